@@ -28,8 +28,9 @@ fn main() {
 		Some("crash") => crash_parent(&args),
 		Some("crash-child") => crash_child(&args),
 		Some("race") => race(&args),
+		Some("gate") => gate(&args),
 		_ => {
-			eprintln!("kv replay|record|crash");
+			eprintln!("kv replay|record|crash|race|gate");
 			2
 		}
 	};
@@ -717,6 +718,47 @@ struct Shared {
 	errors: Mutex<Vec<Value>>,
 	file_len: Mutex<(u64, u64, u64)>, // (last length seen at batch begin, max growth, samples)
 	data_file: String,
+	t0: Instant,
+	beats: Vec<Beat>, // one per worker thread: what it is doing and since when (hang detection)
+}
+
+/// Heartbeat of one worker thread: the store call it is in (or OP_IDLE between calls) and when it last moved.
+struct Beat {
+	used: AtomicBool,
+	done: AtomicBool,
+	role: AtomicU64, // 0 writer, 1 reader, 2 iterator, 3 burst reader
+	op: AtomicU64,
+	t_ms: AtomicU64,
+}
+const MAX_THREADS: usize = 32;
+const OP_IDLE: u64 = 0;
+const OP_BATCH: u64 = 1; // Store::batch()
+const OP_WRITE: u64 = 2; // put / delete / child / reads through the open batch
+const OP_COMMIT: u64 = 3;
+const OP_GET: u64 = 4; // Store::get_ser
+const OP_EXISTS: u64 = 5; // Store::exists
+const OP_ITER: u64 = 6; // Store::iter
+const OP_ITER_NEXT: u64 = 7;
+fn op_name(op: u64) -> &'static str {
+	match op {
+		OP_IDLE => "idle",
+		OP_BATCH => "batch",
+		OP_WRITE => "batch_ops",
+		OP_COMMIT => "commit",
+		OP_GET => "get_ser",
+		OP_EXISTS => "exists",
+		OP_ITER => "iter",
+		OP_ITER_NEXT => "iter_next",
+		_ => "?",
+	}
+}
+fn role_name(r: u64) -> &'static str {
+	match r {
+		0 => "writer",
+		1 => "reader",
+		2 => "iterator",
+		_ => "burst_reader",
+	}
 }
 
 impl Shared {
@@ -733,7 +775,45 @@ impl Shared {
 			errors: Mutex::new(vec![]),
 			file_len: Mutex::new((0, 0, 0)),
 			data_file: format!("{}/multi_lmdb/data.mdb", dir),
+			t0: Instant::now(),
+			beats: (0..MAX_THREADS)
+				.map(|_| Beat {
+					used: AtomicBool::new(false),
+					done: AtomicBool::new(false),
+					role: AtomicU64::new(0),
+					op: AtomicU64::new(OP_IDLE),
+					t_ms: AtomicU64::new(0),
+				})
+				.collect(),
 		}
+	}
+	fn now_ms(&self) -> u64 {
+		self.t0.elapsed().as_millis() as u64
+	}
+	fn register(&self, tid: usize, role: u64) {
+		let b = &self.beats[tid];
+		b.role.store(role, SeqCst);
+		b.t_ms.store(self.now_ms(), SeqCst);
+		b.used.store(true, SeqCst);
+	}
+	/// The thread `tid` enters the store call `op` (or leaves one: OP_IDLE).
+	fn beat(&self, tid: usize, op: u64) {
+		let b = &self.beats[tid];
+		b.op.store(op, SeqCst);
+		b.t_ms.store(self.now_ms(), SeqCst);
+	}
+	fn retire(&self, tid: usize) {
+		self.beats[tid].done.store(true, SeqCst);
+	}
+	/// (tid, role, op, idle ms) of the threads that are still running
+	fn live(&self) -> Vec<(usize, u64, u64, u64)> {
+		let now = self.now_ms();
+		self.beats
+			.iter()
+			.enumerate()
+			.filter(|(_, b)| b.used.load(SeqCst) && !b.done.load(SeqCst))
+			.map(|(i, b)| (i, b.role.load(SeqCst), b.op.load(SeqCst), now.saturating_sub(b.t_ms.load(SeqCst))))
+			.collect()
 	}
 	fn error(&self, op: &str, e: String) {
 		let class = if e.contains("resized while") {
@@ -782,6 +862,7 @@ struct WriterCtx<'a> {
 	hot: u64,
 	pace: u64,
 	cursor: u64,
+	tid: usize,
 }
 
 impl<'a> WriterCtx<'a> {
@@ -799,6 +880,7 @@ impl<'a> WriterCtx<'a> {
 				// hold the write transaction while other threads read
 				std::thread::sleep(Duration::from_micros(self.rng.gen_range(0, self.pace)));
 			}
+			self.sh.beat(self.tid, OP_WRITE);
 			let c = self.rng.gen_range(0, 100);
 			let (mut sp, mut k) = self.pick();
 			if c < 54 && (!self.big || self.rng.gen_range(0, 100) < 75) {
@@ -896,13 +978,16 @@ impl<'a> WriterCtx<'a> {
 	/// One batch; Ok(Some(events)) when it was committed or dropped cleanly.
 	fn batch(&mut self, store: &Store, force_commit: bool) -> bool {
 		let mut ev = vec![];
+		self.sh.beat(self.tid, OP_BATCH);
 		let mut b = match store.batch() {
 			Ok(b) => b,
 			Err(e) => {
+				self.sh.beat(self.tid, OP_IDLE);
 				self.sh.error("batch", errs(e));
 				return false;
 			}
 		};
+		self.sh.beat(self.tid, OP_WRITE);
 		// from here to commit/drop this thread holds LMDB's writer mutex
 		let ord = self.sh.order.fetch_add(1, SeqCst);
 		self.sh.sample_file();
@@ -915,18 +1000,21 @@ impl<'a> WriterCtx<'a> {
 		let ok = self.level(&mut b, 1, &mut ev, &mut bud);
 		if !ok {
 			drop(b);
+			self.sh.beat(self.tid, OP_IDLE);
 			self.sh.log.lock().unwrap().push((ord, ev));
 			return false;
 		}
 		if force_commit || self.rng.gen_range(0, 100) < 85 {
 			let idx = self.sh.commits.fetch_add(1, SeqCst) + 1;
 			self.sh.started.fetch_max(idx, SeqCst);
+			self.sh.beat(self.tid, OP_COMMIT);
 			match b.commit() {
 				Ok(()) => {
 					self.sh.finished.fetch_max(idx, SeqCst);
 					ev.push(json!({"k": "Commit", "idx": idx}));
 				}
 				Err(e) => {
+					self.sh.beat(self.tid, OP_IDLE);
 					self.sh.error("commit", errs(e));
 					self.sh.log.lock().unwrap().push((ord, ev));
 					return false;
@@ -936,6 +1024,7 @@ impl<'a> WriterCtx<'a> {
 			drop(b);
 			ev.push(json!({"k": "Drop"}));
 		}
+		self.sh.beat(self.tid, OP_IDLE);
 		self.sh.log.lock().unwrap().push((ord, ev));
 		true
 	}
@@ -1049,6 +1138,14 @@ fn record(args: &Args) -> i32 {
 	let pace = args.u64("pace", 3000);
 	let min_pages = args.u64("min-pages", 480); // data file high-water mark to reach (forces resizes)
 	let max_batches = args.u64("max-batches", 900);
+	// truly parallel short read transactions (no pauses): several threads closing read transactions at the same
+	// instant, all the time, in particular right before every enlargement of the map
+	let nburst = args.u64("burst", 6).min(12);
+	// a store call that has not returned after hang_s seconds while every other thread is stuck too, confirmed
+	// for confirm_s more seconds with a fresh probe call, is a hang (data, not a tool problem)
+	let hang_s = args.u64("hang", 30);
+	let confirm_s = args.u64("confirm", 15);
+	let single_hang_s = args.u64("single-hang", 120);
 	let _ = std::fs::remove_dir_all(&dir);
 	let store = match open_store(&dir) {
 		Ok(s) => Arc::new(s),
@@ -1060,8 +1157,12 @@ fn record(args: &Args) -> i32 {
 	let cdir = std::fs::canonicalize(&dir).map(|p| p.to_string_lossy().to_string()).unwrap_or(dir.clone());
 	let sh = Arc::new(Shared::new(&cdir));
 	let mut handles = vec![];
+	let mut next_tid = 0usize;
 	for w in 0..nwriters {
 		let (store, sh) = (store.clone(), sh.clone());
+		let tid = next_tid;
+		next_tid += 1;
+		sh.register(tid, 0);
 		handles.push(std::thread::spawn(move || {
 			let mut wc = WriterCtx {
 				cfg,
@@ -1071,6 +1172,7 @@ fn record(args: &Args) -> i32 {
 				hot: 4,
 				pace,
 				cursor: 0,
+				tid,
 			};
 			while !sh.stop.load(SeqCst) {
 				let c = sh.commits.load(SeqCst);
@@ -1084,12 +1186,16 @@ fn record(args: &Args) -> i32 {
 					std::thread::sleep(Duration::from_micros(wc.rng.gen_range(0, 2 * pace)));
 				}
 			}
+			sh.retire(tid);
 			vec![]
 		}));
 	}
 	// reader: single-key reads on fresh read transactions
 	{
 		let (store, sh) = (store.clone(), sh.clone());
+		let tid = next_tid;
+		next_tid += 1;
+		sh.register(tid, 1);
 		handles.push(std::thread::spawn(move || {
 			let mut rng = rng_of(seed, 7);
 			let mut obs = vec![];
@@ -1099,7 +1205,9 @@ fn record(args: &Args) -> i32 {
 				let s = cfg.space(sp);
 				let lo = sh.finished.load(SeqCst);
 				if rng.gen_range(0, 2) == 0 {
+					sh.beat(tid, OP_GET);
 					let r = store.get_ser::<Blob>(s, &kb(k), None);
+					sh.beat(tid, OP_IDLE);
 					let hi = sh.started.load(SeqCst);
 					match r {
 						Ok(x) => obs.push(json!({"k": "OutGet", "sp": sp, "key": k, "res": x.map(|b| b.v).unwrap_or(0), "lo": lo, "hi": hi})),
@@ -1109,7 +1217,9 @@ fn record(args: &Args) -> i32 {
 						}
 					}
 				} else {
+					sh.beat(tid, OP_EXISTS);
 					let r = store.exists(s, &kb(k));
+					sh.beat(tid, OP_IDLE);
 					let hi = sh.started.load(SeqCst);
 					match r {
 						Ok(x) => obs.push(json!({"k": "OutExists", "sp": sp, "key": k, "res": x, "lo": lo, "hi": hi})),
@@ -1121,6 +1231,67 @@ fn record(args: &Args) -> i32 {
 				}
 				std::thread::sleep(Duration::from_micros(rng.gen_range(100, 900)));
 			}
+			sh.retire(tid);
+			obs
+		}));
+	}
+	// burst readers: back-to-back single-key reads, every one a read transaction of its own that is opened and
+	// closed (enter_tx / TxCounter::drop) in parallel with those of the other burst readers. Every 64th
+	// observation is kept for the trace (at most 150 per thread); all are checked for integrity by Blob::read.
+	let burst_reads = Arc::new(AtomicU64::new(0));
+	for bno in 0..nburst {
+		let (store, sh) = (store.clone(), sh.clone());
+		let burst_reads = burst_reads.clone();
+		let tid = next_tid;
+		next_tid += 1;
+		sh.register(tid, 3);
+		handles.push(std::thread::spawn(move || {
+			let mut rng = rng_of(seed, 40 + bno);
+			let mut obs = vec![];
+			let mut n = 0u64;
+			while !sh.stop.load(SeqCst) {
+				let sp = rng.gen_range(1, cfg.ns + 1);
+				let k = rng.gen_range(1, cfg.nk.min(6 + sh.commits.load(SeqCst) / 2) + 1);
+				let s = cfg.space(sp);
+				let keep = n % 64 == 0 && obs.len() < 150;
+				n += 1;
+				let lo = if keep { sh.finished.load(SeqCst) } else { 0 };
+				if (n + bno) % 2 == 0 {
+					sh.beat(tid, OP_GET);
+					let r = store.get_ser::<Blob>(s, &kb(k), None);
+					sh.beat(tid, OP_IDLE);
+					match r {
+						Ok(x) => {
+							if keep {
+								let hi = sh.started.load(SeqCst);
+								obs.push(json!({"k": "OutGet", "sp": sp, "key": k, "res": x.map(|b| b.v).unwrap_or(0), "lo": lo, "hi": hi}));
+							}
+						}
+						Err(e) => {
+							sh.error("get_ser", errs(e));
+							break;
+						}
+					}
+				} else {
+					sh.beat(tid, OP_EXISTS);
+					let r = store.exists(s, &kb(k));
+					sh.beat(tid, OP_IDLE);
+					match r {
+						Ok(x) => {
+							if keep {
+								let hi = sh.started.load(SeqCst);
+								obs.push(json!({"k": "OutExists", "sp": sp, "key": k, "res": x, "lo": lo, "hi": hi}));
+							}
+						}
+						Err(e) => {
+							sh.error("exists", errs(e));
+							break;
+						}
+					}
+				}
+			}
+			burst_reads.fetch_add(n, SeqCst);
+			sh.retire(tid);
 			obs
 		}));
 	}
@@ -1128,13 +1299,18 @@ fn record(args: &Args) -> i32 {
 	// The first one sometimes holds for longer than the resize waiter's polling period, the second scans quickly.
 	for it_no in 0..2u64 {
 		let (store, sh) = (store.clone(), sh.clone());
+		let tid = next_tid;
+		next_tid += 1;
+		sh.register(tid, 2);
 		handles.push(std::thread::spawn(move || {
 			let mut rng = rng_of(seed, 8 + it_no);
 			let mut obs = vec![];
 			while !sh.stop.load(SeqCst) {
 				let sp = rng.gen_range(1, cfg.ns + 1);
 				let lo = sh.finished.load(SeqCst);
+				sh.beat(tid, OP_ITER);
 				let it = store.iter(cfg.space(sp), deser_pair as DeserFn);
+				sh.beat(tid, OP_IDLE);
 				let hi = sh.started.load(SeqCst);
 				let mut it: It = match it {
 					Ok(it) => it,
@@ -1148,7 +1324,10 @@ fn record(args: &Args) -> i32 {
 				let mut l = vec![];
 				let mut n = 0;
 				let r = loop {
-					match conv_item(it.next()) {
+					sh.beat(tid, OP_ITER_NEXT);
+					let item = conv_item(it.next());
+					sh.beat(tid, OP_IDLE);
+					match item {
 						Ok(Some(p)) => l.push(p),
 						Ok(None) => break Ok(()),
 						Err(e) => break Err(e),
@@ -1181,9 +1360,70 @@ fn record(args: &Args) -> i32 {
 				}
 				std::thread::sleep(Duration::from_micros(rng.gen_range(100, 3000)));
 			}
+			sh.retire(tid);
 			obs
 		}));
 	}
+	let _ = next_tid;
+	// watchdog: hang detection. The process is ended from here when a hang is confirmed (the stuck threads
+	// cannot be joined); the verdict is the last line on stdout like every other result of this command.
+	let all_joined = Arc::new(AtomicBool::new(false));
+	let stalls_recovered = Arc::new(AtomicU64::new(0));
+	let watchdog = {
+		let (store, sh) = (store.clone(), sh.clone());
+		let (all_joined, stalls_recovered) = (all_joined.clone(), stalls_recovered.clone());
+		let dir = dir.clone();
+		std::thread::spawn(move || loop {
+			std::thread::sleep(Duration::from_millis(250));
+			if all_joined.load(SeqCst) {
+				return;
+			}
+			let live = sh.live();
+			if live.is_empty() {
+				continue;
+			}
+			let in_call = |x: &(usize, u64, u64, u64), ms: u64| x.2 != OP_IDLE && x.3 >= ms;
+			let all_stuck = live.iter().all(|x| in_call(x, hang_s * 1000));
+			let one_stuck = live.iter().any(|x| in_call(x, single_hang_s * 1000));
+			if !all_stuck && !one_stuck {
+				continue;
+			}
+			// re-confirm: a fresh store call on a fresh thread must not return either, and nobody may move
+			let (ptx, prx) = mpsc::channel::<bool>();
+			let pstore = store.clone();
+			std::thread::spawn(move || {
+				let r = pstore.exists(Some(b'P'), &kb(1));
+				let _ = ptx.send(r.is_ok());
+			});
+			let probe_returned = prx.recv_timeout(Duration::from_secs(confirm_s)).is_ok();
+			let live2 = sh.live();
+			let still_all = !live2.is_empty() && live2.iter().all(|x| in_call(x, (hang_s + confirm_s) * 1000));
+			let still_one = live2.iter().any(|x| in_call(x, (single_hang_s + confirm_s) * 1000));
+			let confirmed = (all_stuck && still_all && !probe_returned) || (one_stuck && still_one);
+			if !confirmed {
+				stalls_recovered.fetch_add(1, SeqCst);
+				continue;
+			}
+			let threads: Vec<Value> = live2
+				.iter()
+				.map(|x| json!({"thread": x.0, "role": role_name(x.1), "in": op_name(x.2), "stuck_ms": x.3}))
+				.collect();
+			let mut writer_ops: Vec<&str> = live2.iter().filter(|x| x.1 == 0 && x.2 != OP_IDLE).map(|x| op_name(x.2)).collect();
+			writer_ops.sort();
+			writer_ops.dedup();
+			let kind = if all_stuck && still_all && !probe_returned { "all_blocked" } else { "single_thread" };
+			println!(
+				"{}",
+				json!({"hang": {"kind": kind, "threads": threads, "writer_in": writer_ops.join("+"), "probe_exists_returned": probe_returned,
+					"bound_s": if kind == "all_blocked" { hang_s + confirm_s } else { single_hang_s + confirm_s },
+					"commits": sh.commits.load(SeqCst), "data_pages": data_pages(&dir), "map_bytes": map_region(&sh.data_file).map(|m| m.1)},
+					"errors": [], "commits": sh.commits.load(SeqCst)})
+			);
+			use std::io::Write;
+			let _ = std::io::stdout().flush();
+			std::process::exit(0);
+		})
+	};
 	let t0 = Instant::now();
 	let mut obs: Vec<Value> = vec![];
 	let mut panicked = false;
@@ -1201,6 +1441,8 @@ fn record(args: &Args) -> i32 {
 	}
 	let _ = panicked;
 	let wall = t0.elapsed().as_millis() as u64;
+	all_joined.store(true, SeqCst);
+	let _ = watchdog.join(); // it holds a handle of the store, which is closed and reopened below
 	let concurrent_obs = obs.len();
 	let total = sh.commits.load(SeqCst);
 	// nothing committed is lost: full observation now, and again after closing and reopening
@@ -1236,7 +1478,8 @@ fn record(args: &Args) -> i32 {
 		"{}",
 		json!({"events": n, "batches": ngroups, "commits": total, "concurrent_observations": concurrent_obs,
 			"map_size": map_size, "data_file_bytes": fl.0, "max_batch_growth_pages": fl.1 / 4096, "errors": errors,
-			"defdb": cfg.defdb, "wall_ms": wall})
+			"defdb": cfg.defdb, "wall_ms": wall, "burst_reader_threads": nburst, "burst_reads": burst_reads.load(SeqCst),
+			"stalls_recovered": stalls_recovered.load(SeqCst)})
 	);
 	let _ = std::fs::remove_dir_all(&dir);
 	0
@@ -1272,6 +1515,7 @@ fn crash_child(args: &Args) -> i32 {
 		hot: cfg.nk,
 		pace: 0,
 		cursor: seed % 17,
+		tid: 0,
 	};
 	while sh.commits.load(SeqCst) < n {
 		if !wc.batch(&store, false) {
@@ -1455,4 +1699,157 @@ fn race(args: &Args) -> i32 {
 			"writer_b": b_res.err(), "writer_a": a_res.err()})
 	);
 	0
+}
+
+// ------------------------------------------------------------------------------------------
+// Directed scenario: the enlargement of the map is DEFERRED because another thread holds an open
+// iterator (read transaction); the batch that asked for it waits at the gate and, once the reader
+// has closed and the map has been enlarged, writes far more than what was left in the old map
+// (but well within the head-room a resize guarantees: used <= 65 % of the new map).
+//   KV.tla: BeginWait .. (OutIterClose) .. Resize .. Admit .. Put .. Commit, invariant NoMapFull.
+// `gate --dir D [--big BYTES] [--wait-ms MS] [--hang S]`
+enum GateCmd {
+	Small(u64),
+	Big,
+}
+
+fn gate(args: &Args) -> i32 {
+	let dir = args.req("dir").to_string();
+	let big = args.u64("big", 200 * 1024) as usize;
+	let wait_ms = args.u64("wait-ms", 500);
+	let hang_s = args.u64("hang", 30);
+	let _ = std::fs::remove_dir_all(&dir);
+	let store = Arc::new(open_store(&dir).expect("open"));
+	let cdir = std::fs::canonicalize(&dir).map(|p| p.to_string_lossy().to_string()).unwrap_or(dir.clone());
+	let data_file = format!("{}/multi_lmdb/data.mdb", cdir);
+	let finish = |v: Value| -> i32 {
+		println!("{}", v);
+		use std::io::Write;
+		let _ = std::io::stdout().flush();
+		// threads may be stuck inside the store: never join, never unwind through them
+		std::process::exit(0);
+	};
+	// phase 1 (single thread, nothing else open): fill to about 78 % of the 256-page test-mode map
+	let mut key = 1u64;
+	while data_pages(&dir) < 200 {
+		if let Err(e) = one_put(&store, key, 8 * 1024) {
+			return finish(json!({"reached": false, "class": "fill_error", "error": e}));
+		}
+		key += 1;
+	}
+	let map0 = map_region(&data_file).map(|m| m.1).unwrap_or(0);
+	// phase 2: small batches from a writer thread while THIS thread holds an open iterator, until a batch()
+	// call does not come back: it needs the enlargement, which has to wait for the iterator
+	for it_no in 0..400u64 {
+		let held = match store.iter(Some(b'P'), deser_pair as DeserFn) {
+			Ok(it) => it,
+			Err(e) => return finish(json!({"reached": false, "class": "iter_error", "error": errs(e)})),
+		};
+		let (enter_tx, enter_rx) = mpsc::channel::<()>();
+		let (got_tx, got_rx) = mpsc::channel::<()>();
+		let (cmd_tx, cmd_rx) = mpsc::channel::<GateCmd>();
+		let (res_tx, res_rx) = mpsc::channel::<Result<(), String>>();
+		let wstore = store.clone();
+		std::thread::spawn(move || {
+			let r = (|| -> Result<(), String> {
+				let _ = enter_tx.send(());
+				let mut b = wstore.batch().map_err(errs)?;
+				let _ = got_tx.send(());
+				match cmd_rx.recv().map_err(|e| e.to_string())? {
+					GateCmd::Small(k) => b.put_ser(Some(b'P'), &kb(k), &Blob { v: k, len: 4 * 1024 }).map_err(|e| format!("put:{}", errs(e)))?,
+					GateCmd::Big => {
+						// raw bytes in Blob layout (Blob::read refuses fixed-size reads this long)
+						let mut bytes = 9000u64.to_be_bytes().to_vec();
+						bytes.extend_from_slice(&((big - 16) as u64).to_be_bytes());
+						bytes.extend(fill(9000, big - 16));
+						b.put(Some(b'P'), &kb(9000), &bytes).map_err(|e| format!("put:{}", errs(e)))?
+					}
+				}
+				b.commit().map_err(|e| format!("commit:{}", errs(e)))
+			})();
+			let _ = res_tx.send(r);
+		});
+		if enter_rx.recv_timeout(Duration::from_secs(hang_s)).is_err() {
+			return finish(json!({"reached": false, "class": "harness", "error": "writer thread did not start"}));
+		}
+		// the writer is inside Store::batch() now; a call that is not back after wait_ms is taken to be parked at
+		// the gate when the fill level says an enlargement is due (file pages >= 232 of 256: last page number
+		// 231 -> 90.2 %), otherwise only after a much longer wait (a slow machine must not be mistaken for it)
+		let mut got = got_rx.recv_timeout(Duration::from_millis(wait_ms));
+		if let Err(mpsc::RecvTimeoutError::Timeout) = got {
+			if data_pages(&dir) < 232 {
+				got = got_rx.recv_timeout(Duration::from_millis(10 * wait_ms));
+			}
+		}
+		match got {
+			Ok(()) => {
+				// no enlargement pending: an ordinary small batch
+				let _ = cmd_tx.send(GateCmd::Small(key));
+				key += 1;
+				match res_rx.recv_timeout(Duration::from_secs(hang_s)) {
+					Ok(Ok(())) => {}
+					Ok(Err(e)) => return finish(json!({"reached": false, "class": "fill_error", "error": e, "iterations": it_no})),
+					Err(_) => return finish(json!({"reached": false, "class": "hang", "phase": "small_batch", "iterations": it_no, "bound_s": hang_s})),
+				}
+				drop(held);
+			}
+			Err(mpsc::RecvTimeoutError::Disconnected) => {
+				let e = res_rx.recv().ok().and_then(|r| r.err()).unwrap_or_default();
+				return finish(json!({"reached": false, "class": "fill_error", "error": e, "iterations": it_no}));
+			}
+			Err(mpsc::RecvTimeoutError::Timeout) => {
+				// the writer is parked at the gate (KV!BeginWait); the enlargement waits for our iterator
+				let pages_at_wait = data_pages(&dir);
+				let map_at_wait = map_region(&data_file).map(|m| m.1).unwrap_or(0);
+				let t_close = Instant::now();
+				drop(held); // KV!OutIterClose: OpenTxs = 0 from here on
+				if got_rx.recv_timeout(Duration::from_secs(hang_s)).is_err() {
+					let e = res_rx.try_recv().ok().and_then(|r| r.err());
+					if let Some(e) = e {
+						return finish(json!({"reached": true, "class": "error", "phase": "batch", "error": e, "iterations": it_no,
+							"pages_at_wait": pages_at_wait, "map_at_wait": map_at_wait}));
+					}
+					return finish(json!({"reached": true, "class": "hang", "phase": "batch_after_reader_closed", "iterations": it_no,
+						"pages_at_wait": pages_at_wait, "map_at_wait": map_at_wait, "bound_s": hang_s}));
+				}
+				let waited_ms = t_close.elapsed().as_millis() as u64;
+				let map_after = map_region(&data_file).map(|m| m.1).unwrap_or(0);
+				let _ = cmd_tx.send(GateCmd::Big);
+				let res = match res_rx.recv_timeout(Duration::from_secs(hang_s)) {
+					Ok(r) => r,
+					Err(_) => {
+						return finish(json!({"reached": true, "class": "hang", "phase": "big_write", "iterations": it_no,
+							"pages_at_wait": pages_at_wait, "map_at_wait": map_at_wait, "map_after": map_after, "bound_s": hang_s}))
+					}
+				};
+				let mut class = "ok";
+				let mut error = None;
+				if let Err(e) = res {
+					class = if e.contains("MAP_FULL") || e.contains("MapFull") || e.contains("NotEnoughSpace") { "mapfull" } else { "error" };
+					error = Some(e);
+				} else {
+					// the committed value is there, whole
+					let found = match store.iter(Some(b'P'), deser_pair as DeserFn) {
+						Ok(it) => it
+							.filter_map(|x| x.ok())
+							.find(|(k, _)| k[..] == kb(9000)[..])
+							.map(|(_, v)| (v.len(), decode_blob(&v))),
+						Err(e) => Some((0, Err(errs(e)))),
+					};
+					match found {
+						Some((n, Ok(9000))) if n == big => {}
+						other => {
+							class = "lost";
+							error = Some(format!("{:?}", other));
+						}
+					}
+				}
+				return finish(json!({"reached": true, "class": class, "error": error, "iterations": it_no, "small_batches": key - 1,
+					"pages_at_wait": pages_at_wait, "map_initial": map0, "map_at_wait": map_at_wait, "map_after_gate": map_after,
+					"map_final": map_region(&data_file).map(|m| m.1).unwrap_or(0), "pages_final": data_pages(&dir),
+					"big_bytes": big, "gate_wait_ms": waited_ms, "recognised_waiting_after_ms": wait_ms}));
+			}
+		}
+	}
+	finish(json!({"reached": false, "class": "never_needed_resize", "pages": data_pages(&dir)}))
 }
